@@ -743,6 +743,19 @@ class Engine(TorchDispatchMode):
             ra, rb = [x.to_real() if isinstance(x, SymTensor) else x for x in (a, b)]
             with no_mode():
                 return self._wrap_new(func(ra, rb))
+        if not isinstance(a, SymTensor) and isinstance(b, SymTensor) and not isfloat_dtype(b.dtype) and isinstance(a, int):
+            # integer base ** symbolic small integer exponent: ite chain over 0..12 (range is a model obligation)
+            out = []
+            for v in b.vals():
+                if not is_sym(v):
+                    out.append(a ** v)
+                    continue
+                self.model_obligations.append(z3.And(v >= 0, v <= 12))
+                acc = a ** 12
+                for k in range(11, -1, -1):
+                    acc = s_ite(s_cmp("eq", v, k), a ** k, acc)
+                out.append(acc)
+            return SymTensor.from_vals(out, b.shape, b.dtype)
         if isinstance(b, SymTensor):
             if not b.concrete():
                 raise Unsupported("symbolic exponent")
@@ -895,7 +908,7 @@ class Engine(TorchDispatchMode):
             nk = 1
             for s_ in kshape:
                 nk *= s_
-            rows = perm.reshape(nk, -1).tolist()
+            rows = perm.reshape(nk, -1).tolist() if perm.numel() else [[] for _ in range(nk)]
         out = []
         for r in rows:
             acc = init
@@ -1351,7 +1364,10 @@ class Engine(TorchDispatchMode):
             vm = m.vals()
             rest = tuple(a.shape[k:])
             with no_mode():
-                rowidx = a.idx.reshape((-1,) + rest)
+                nrows = 1
+                for s_ in a.shape[:k]:
+                    nrows *= s_
+                rowidx = a.idx.reshape((nrows,) + rest)
                 rowlists = [r.reshape(-1).tolist() for r in rowidx]
             if all(not is_sym(x) for x in vm):
                 sel = [r for r, x in zip(rowlists, vm) if x]
